@@ -203,6 +203,8 @@ func vNoLoopSends(c *vSrvCarrier, tag string) {
 // frames a client sends before it can know the outcome.
 func verifH_SrvNewStream() {
 	base := context.WithValue(context.Background(), vCtxKey{}, "carrier-value")
+	// the tunnel-opening call's own request metadata is on the carrier context
+	base = metadata.NewIncomingContext(base, metadata.MD{"authorization": {"opener-secret"}})
 	carCtx, carCancel := context.WithCancel(base)
 	car := &vSrvCarrier{ctx: carCtx, endErr: io.EOF}
 	// The input space is explored one dimension group at a time (the others
@@ -357,6 +359,28 @@ func verifH_SrvNewStream() {
 	rmd, _ := metadata.FromIncomingContext(inv.ctx)
 	if hdrShape == 1 {
 		verifAssert(len(rmd["k"]) == 2 && rmd["k"][0] == "v1" && rmd["k"][1] == "v2", "C02+C17.request-metadata-delivered")
+		verifAssert(len(rmd) == 1, "C02+C17.only-the-rpcs-own-request-metadata")
+	}
+	if hdrShape == 0 {
+		// no request metadata: the handler must not see the tunnel opener's instead
+		verifAssert(len(rmd) == 0, "C02+C17.no-request-metadata-means-none")
+	}
+	// C06/C11: the stream's flow-control components (visible through the ServerStream a streaming handler gets)
+	if ss, isStream := inv.stream.(*tunnelServerStream); isStream {
+		_, fcS := ss.sender.(*defaultSender)
+		fr, fcR := ss.receiver.(*defaultReceiver[tunnelpb.ClientToServerFrame])
+		wantFC := rev == tunnelpb.ProtocolRevision_REVISION_ONE
+		verifAssert(fcS == wantFC && fcR == wantFC, "C11.srv-flow-control-iff-revision-one")
+		if wantFC && fcS && fcR {
+			verifCover("fc-stream")
+			// the receiver enforces the window this server advertises; the sender starts with the peer's
+			q := uint64(0)
+			for e := fr.items.Front(); e != nil; e = e.Next() {
+				q += uint64(fr.measure(e.Value.(tunnelpb.ClientToServerFrame)))
+			}
+			verifAssert(uint64(fr.currentWindow)+q == initialWindowSize || fr.cancelled, "C06.srv-receiver-enforces-the-advertised-window")
+			verifAssert(ss.sender.(*defaultSender).currentWindow.Load() <= win, "C06+C11.srv-sender-starts-with-the-peers-window")
+		}
 	}
 	d, hasDeadline := verifDeadline(inv.ctx)
 	if hdrShape == 2 {
